@@ -115,3 +115,52 @@ reg("C10",
          "Real-process detection of a broken lock relies on a 0.25 s rendezvous window (affects sensitivity only). TLC, the JSON bridge and lib/simmp.Sched are trusted.",
     technique="TLA+/TLC exhaustive model checking + liveness; TLC trace validation of real multi-process runs; deterministic replay of TLC behaviours into real update_image",
     design_ref="DESIGN.md 4.8, 5/C10, 3 (M1-M3)")
+
+reg("C04",
+    text="spec/ToastLattice.tla describes TOAST on an integer lattice where every point is a record [coordinates, the pair it is the midpoint of]; TLC checks as theorems "
+         "over the whole bounded lattice that the code's level-1 table is the documented layout (both coordinate systems), that _div4, create_single_tile and the post-order "
+         "generator produce exactly the canonical tiles including the defining pairs (so the diagonal choice is visible), that the tiles of a level partition the square, four "
+         "children tile their parent, defining pairs respect the sewn boundary, and explores point lookup as a state machine (LookupHolds, NeverStuck, LookupNested). TLC emits "
+         "anchors, the Def table and the tile table; psi (lattice -> sphere) built from them is compared with the corners and orientation the real code reports through full "
+         "enumeration, filtered enumeration, single-tile construction, point lookup and Pyramid._generator for every tile to depth 5 (7 thorough) and seeded tiles to depth 20, in "
+         "both coordinate systems; identical lattice points seen from different tiles / levels / across the fold must be one sphere point; areas must sum to 4 pi per level and "
+         "parent = sum of children.",
+    note="The lattice theorems are exhaustive at R=5, depth 3 (thorough R=6, depth 4); deeper positions use the closed form lib/lattice.def_pair, validated against TLC's Def table "
+         "for the whole lattice on every run. Trusted: normalize(a+b) is the great-circle midpoint. Tolerances: 1e-9 spec vs real (observed 1e-15), 1e-12 between routes. Area clause to "
+         "depth 4 (6 thorough): toast_tile_area itself loses digits deeper. _libtoasty.pyx cannot be recompiled here (no Cython); the compiled mid()/subsample() are what is exercised.",
+    technique="TLA+/TLC theorems + state machine on the integer lattice; TLC-emitted tables drive the comparison with the real tile geometry through every construction route",
+    design_ref="DESIGN.md 4.4, 5/C04")
+
+reg("C11",
+    text="TLC checks, for every configuration (layout x nx x ny x resolution x point family; all shapes <= 12x12, larger ones in the thorough tier), that the documented "
+         "plate-carree layouts (spec/PlateCarree.tla: containment relations for sky, zero-right, planet, zero-left) select exactly one in-range cell for every admissible angle, "
+         "with period 2*pi (also +-10^6 turns), the stated direction of increasing longitude, longitude 0 at the centre / right edge / left edge, +90 on the top row, the mirror/shift "
+         "relations and cell refinement under doubling; that the closed forms and an exact-arithmetic transcription of vec2pix compute that cell; and emits the expected arange-map "
+         "value for every (lon unit, lat unit). Every table is replayed through the real sampler (scalar, RGB and list maps, four request shapes: value per point, result shape, no "
+         "exception) and sky tables through plate_carree_galactic_sampler at astropy's ICRS pre-images.",
+    note="Test angles are odd multiples of 1/(4g) of a cell (never on a cell boundary), poles included. astropy's ICRS<->Galactic rotation, TLC and the JSON bridge are trusted. "
+         "Ecliptic and chunked samplers are outside the anchors.",
+    technique="TLA+/TLC model checking of the layout theorems over a bounded configuration space + TLC-produced expected cells replayed into the real samplers",
+    design_ref="DESIGN.md 4.10 (PlateCarree.tla), 5/C11")
+
+reg("C16",
+    text="spec/Parity.tla models the object under flip_parity / ensure_negative_parity as a state machine over exact integers (CDELT, PC, doubled CRPIX, row order; original kept as "
+         "history). TLC enumerates kind (Image / data-less ImageDescription) x width x height x header x CRPIX and checks in every state that each stored pixel keeps its sky position "
+         "and the sign tracks the row orientation, and on every transition FlipOK (sign and determinant negated, rows reversed, World(x,y) = World'(x,h-1-y), involution) and EnsureOK "
+         "(yields -1, idempotent, no-op on negative parity). Every case's predicted signs, row orders, header values and per-pixel world tables are replayed into real astropy WCS "
+         "objects and real toasty Images / ImageDescriptions: flip, flip, ensure, ensure; signs, data rows, wcs_pix2world per pixel (1e-9 deg), linear stage vs TLC's table.",
+    note="Linear TAN WCS with non-singular integer matrices x 1e-3 deg; sizes to 4x6 (quick 3x5). Singular matrices have no parity and are excluded. astropy's projection is trusted.",
+    technique="TLA+/TLC exhaustive exploration of the flip/ensure state machine over enumerated integer WCS cases + replay of every case's predicted outcome into the real code",
+    design_ref="DESIGN.md 4.10 (Parity.tla), 5/C16")
+
+reg("C15",
+    text="TLC explores two machines of spec/Mask.tla. BufSpec: one maskable buffer of the 2x2 grid under Clear / Fill / Update for five mode classes, from every reachable buffer "
+         "content, with every slice / reversed-slice indexer quadruple, pointwise integer-array indexers and source images; the invariant EveryCallObeysC15 asserts the buffer "
+         "sentences of C15 for every step. FileSpec: one tile file of a PyramidIO per lossless format under Write(mode, tile) / ReadNone / ReadMasked for the eight modes from every "
+         "file state, with the persistence sentences as invariant / action properties. TLC's complete transition tables are then executed on real toasty Images of all eight modes "
+         "(chains of real clear/fill/update calls on real maskable buffers; write/read histories on a real PyramidIO in png, npy and fits) and the projected real state is compared "
+         "with TLC's after every call.",
+    note="Bounded: 2x2 grid exhaustive, 2x3 from sampled priors, abstract values {undefined, 1, 2}. Integer modes only with non-negative values; 'all-undefined never stored' only for "
+         "RGBA/F32/F64/F16x3; update only with slice indexers. Trusted: TLC, the JSON bridge, the per-mode value map/projection of the harness.",
+    technique="TLA+/TLC exhaustive model checking of the buffer and tile-file machines + replay of every TLC transition into the real code with state comparison after each call",
+    design_ref="DESIGN.md 4.6, 5/C15")
